@@ -22,7 +22,7 @@ META = {
     "numerical-Jacobian twin + distance edges: same optimum as the analytic graph (1e-5) and the C05 oracles (independent Newton decrement, ground truth). "
     "non-trivial = Jacobian with an entry outside {0,+-1}",
     "assumptions": ["forward-difference accuracy bound: 1e-5 x (1 + lever arms) x (1 + 1/distance for distance-like programs) + 1e-8 |e| + 1e-8 |coordinates| (rounding); every configuration is also evaluated shifted by (5000,-3000,2000) and after moving vertex 0", "finite program family and alphabets; optimisation inside the C05 radii"],
-    "required_classes": ["prog:distance", "prog:range", "prog:relpose", "prog:prior", "prog:landmark", "prog:midpoint", "prog:spacing", "prog:scaled", "prog:finestep", "arity:1", "arity:2", "arity:3", "far_cluster", "moved_then_requested_again", "kind:SE3", "kind:SE2", "opt:ternary_edges", "opt:numeric_twin", "opt:distance_edges"],
+    "required_classes": ["prog:lastcoord", "prog:distance", "prog:range", "prog:relpose", "prog:prior", "prog:landmark", "prog:midpoint", "prog:spacing", "prog:scaled", "prog:finestep", "arity:1", "arity:2", "arity:3", "far_cluster", "moved_then_requested_again", "kind:SE3", "kind:SE2", "opt:ternary_edges", "opt:numeric_twin", "opt:distance_edges"],
     "bounds": {"quick": "quick pose alphabets (pairs), 8-pose thinned alphabet (triples); SLAM n in {3,6}", "thorough": "thorough alphabets thinned to 60 poses (pairs), 12 (triples); SLAM n in {3,6,12}"},
 }
 
@@ -91,12 +91,26 @@ class Spacing(_Prog):
         return np.array([np.linalg.norm(a[:k] - b[:k]) - np.linalg.norm(b[:k] - c[:k]) - float(self.estimate)])
 
 
+class LastCoord(_Prog):
+    """the error ignores every compact coordinate of the vertex but the LAST one (altitude / heading prior); for SE(2) the heading
+    difference is wrapped, so the program is smooth also for headings just below +pi"""
+
+    def calc_error(self):
+        p = self.vertices[0].pose
+        d = float(p.to_compact()[-1]) - float(self.estimate)
+        if type(p).__name__ == "PoseSE2":
+            d = (d + math.pi) % (2 * math.pi) - math.pi
+        return np.array([d])
+
+
 def programs():
     out = []
     for k in I.KINDS:
         out.append(("distance", Distance, [k, k]))
         out.append(("relpose", RelPose, [k, k]))
         out.append(("prior", Prior, [k]))
+    for k in I.KINDS:
+        out.append(("lastcoord", LastCoord, [k]))
     for k in ("SE2", "SE3"):
         out.append(("range", Range, [k, I.POINT_OF[k]]))
     for k in I.KINDS:
@@ -117,6 +131,8 @@ FAR = [5000.0, -3000.0, 2000.0]
 
 
 def _estimate(name, kinds, seed):
+    if name == "lastcoord":
+        return 0.3
     if name in ("distance", "range", "spacing"):
         return 1.7 if name != "spacing" else 0.3
     if name == "scaled":
@@ -140,7 +156,11 @@ def _thin(ps, n):
 
 def _alpha(kind, tier, seed, n):
     ps = A.poses(kind, tier, seed)
-    return _thin(ps, n)
+    out = _thin(ps, n)
+    if kind == "SE2" and n >= 20:
+        # headings entered with 7 decimals of pi: a forward step of 1e-6 carries the stored angle across the +-pi seam
+        out = out + [[0.7, -1.3, 3.1415926], [0.0, 0.0, -3.1415926]]
+    return out
 
 
 def chunks(tier, seed):
@@ -284,6 +304,10 @@ def _eval_jac(case):
         # the SE(2) angular error wraps here: the error function itself is discontinuous (not a smooth program at this point)
         return [], {"classes": classes + ["excluded:se2_wrap_set"], "ratio": 0.0, "ops": 1, "nontrivial": False}
     angle_idx = (2,) if (name in ("relpose", "prior", "finestep") and kinds[0] == "SE2") else ()
+    if name == "lastcoord" and kinds[0] == "SE2":
+        if abs(abs(e0[0]) - math.pi) < 0.02:
+            return [], {"classes": classes + ["excluded:se2_wrap_set"], "ratio": 0.0, "ops": 1, "nontrivial": False}
+        angle_idx = (0,)
     rot = slice(3, 6) if (name in ("relpose", "prior", "finestep") and kinds[0] == "SE3") else None
     pscale = 1e-7 if name == "scaled" else 1.0  # the accuracy bound scales with the program
     ratio = 0.0
